@@ -150,6 +150,26 @@ CLAIMED = {
          "spline evaluation recorded, radial reductions at 1e-12. zoom (interp2d) being unusable and zoom_rbs rejecting integer sizes are known findings."),
    ref="5 C16",
    note="FITPACK spline enters by contract (interpolation, linearity, polynomial reproduction tested numerically); numpy.interp/argmin of encircled_energy only tested."),
+ "C06": dict(
+   technique="Coq proof over an effect model instantiated with a footprint table regenerated from source + dynamic interleaving/bitwise reproduction runs",
+   text=("The syntactic footprint of every function (in-place writes through parameters and their aliases, returned aliases, use of NumPy's "
+         "legacy global generator / random / time, module-level mutable objects incl. ones returned by helpers, memoisation; closed under calls) "
+         "is regenerated from the source on every run; Coq checks on that table that no screen function touches process-global state and that no "
+         "other function does except the listed one, and proves for every semantics consistent with the footprints that the result of a call is "
+         "the same wherever it stands in any program of such calls. Dynamically, seeded FFT / sub-harmonic / infinite screens (incl. every added "
+         "row, boundary seeds 0 and numpy integers) are compared bitwise with isolated runs and with a fresh interpreter under random "
+         "interleavings of other instances, global-state changes and unrelated calls."),
+   ref="5 C06",
+   note="The footprint analysis is in the trusted base (cross-checked dynamically both ways); PCG64/OS-entropy facts (different seeds differ) observed only."),
+ "C20": dict(
+   technique="Coq proof over an effect model instantiated with a footprint table regenerated from source + dynamic purity cross-check of every public function",
+   text=("Same regenerated footprint table: Coq checks that every public function has a pure footprint except six listed known findings (and two "
+         "justified over-approximations) -- the full statement is refuted on the faithful table -- and proves that programs of footprint-pure calls "
+         "on shared arrays leave every array and the hidden state unchanged and that equal calls return equal results in any order. Every public "
+         "function is exercised through a recipe with read-only arguments, checksummed copies, repeated calls under different global generator "
+         "states and memory-sharing tests, and the observations must agree with the table; batch-vs-item clauses and random programs are run by the falsifier."),
+   ref="5 C20",
+   note="Analysis heuristics trusted but cross-checked in both directions; functions that cannot be exercised are listed in the evidence with the reason."),
 }
 NOT_YET = {}
 ALL = ["C%02d" % i for i in range(1, 21)]
